@@ -19,8 +19,12 @@ InsideAny(a, bs) == \E b \in bs : Inside(a, b)
 
 \* ------------------------------------------------------------------ guards
 \* p = [blocks (seq of [base,len]), peer = [fam, addr], site, ext]   o = [auth, panic, blocks (seq), cn, class]
-PeerIsV4(p) == p.peer.fam \in {"v4", "v4mapped"}
-ShouldAuth(p) == p.ext = "wellformed" /\ PeerIsV4(p) /\ InsideAny(p.peer.addr, SeqToSet(p.blocks))
+\* xff_loopback / xff_outside: the TCP peer is 127.0.0.1 / 192.0.2.10 and the request carries X-Forwarded-For and
+\* X-Real-Ip naming p.peer.addr - the address that counts is the peer of the connection
+Loopback == 127 * Pow2(24) + 1
+PeerIsV4(p) == p.peer.fam \in {"v4", "v4mapped", "xff_loopback"}
+TcpPeer(p) == IF p.peer.fam = "xff_loopback" THEN Loopback ELSE p.peer.addr
+ShouldAuth(p) == p.ext = "wellformed" /\ PeerIsV4(p) /\ InsideAny(TcpPeer(p), SeqToSet(p.blocks))
 G_C11_OnlyInside(p, o)  == o.auth => ShouldAuth(p)
 G_C11_InsideWorks(p, o) == (ShouldAuth(p) /\ p.site # "readback") => o.auth
 G_C11_Corrupted(p, o)   == p.ext # "wellformed" => ~o.auth
@@ -50,6 +54,8 @@ Peer(f, a) == [fam |-> f, addr |-> a]
 InC11(p) == \/ \E l \in 0..32, s \in Sites : \E bl \in Lists(l) :
                  \E a \in Positions(Blk(Base, l)), f \in {"v4", "v4mapped"} :
                     p = [blocks |-> bl, peer |-> Peer(f, a), site |-> s, ext |-> "wellformed"]
+            \/ \E l \in {8, 20, 32}, s \in Sites \ {"library", "readback"} : \E bl \in Lists(l) :
+                 p = [blocks |-> bl, peer |-> Peer("xff_loopback", Base), site |-> s, ext |-> "wellformed"]
             \/ \E l \in {0, 8, 24, 32}, s \in Sites \ {"readback"}, f \in {"v6", "noport", "garbage", "empty"} :
                  p = [blocks |-> <<Blk(Base, l)>>, peer |-> Peer(f, Base), site |-> s, ext |-> "wellformed"]
             \/ \E x \in {"bitlen33", "bitlen40", "bitlen255", "shortbytes", "padding", "family_v6",
